@@ -271,9 +271,10 @@ class C04(HistoryProp):
         while any(left.values()):
             e = 'e%d' % (sched[si % len(sched)] % len(sizes))
             si += 1
-            if left[e]:
-                order.append(e)
-                left[e] -= 1
+            if not left[e]:
+                e = next(x for x in sorted(left) if left[x])       # that engine is done: the next one that is not
+            order.append(e)
+            left[e] -= 1
 
         code = impl.compile_text(gen.program_text(prog))
 
